@@ -61,6 +61,16 @@ WRONG = {
     "ENUM": [["pystr", "zz"], ["INTEGER", 1], ["ENUM", 2, "a"], ["STRING", "a"]],
     "AGG": [["INTEGER", 1], ["pystr", "x"], ["AGG", "LIST", "INTEGER", 9], ["AGG", "ARRAY", "REAL", 9]],
 }
+# elements that are NOT of the declared base type although Python compares them equal to (and hashes them like) a
+# value of the base type: REAL(1.0) == INTEGER(1), True == 1 == 1.0.  (INTEGER into a REAL aggregate is not listed:
+# EXPRESS lets an integer stand for a real.)  Offered while the equal value is held, they separate "checked the type"
+# from "found it in the container".
+WRONG_EQ = {
+    "INTEGER": [[["REAL", float(k)], ("int", k)] for k in POOLS["INTEGER"]]
+               + [[["pybool", True], ("int", 1)], [["pybool", False], ("int", 0)]],
+    "REAL": [[["pybool", True], ("float", 1.0)], [["pybool", False], ("float", 0.0)]],
+    "STRING": [], "ENUM": [], "AGG": [],
+}
 QUERIES = {"SIZEOF": "get_size", "HIINDEX": "get_hiindex", "LOINDEX": "get_loindex",
            "HIBOUND": "get_hibound", "LOBOUND": "get_lobound", "VALUE_UNIQUE": "get_value_unique"}
 QNAMES = list(QUERIES)
@@ -90,7 +100,7 @@ def is_right(elem, base):
 
 
 def is_wrong(elem, base):
-    return elem in WRONG[base]
+    return elem in WRONG[base] or any(elem == w and type(elem[1]) is type(w[1]) for w, _ in WRONG_EQ[base])
 
 
 def key(elem):
@@ -411,7 +421,7 @@ class Exec:
                 self.cache[ck] = obj
                 self.tags[id(obj)] = elem[3]
             return self.cache[ck]
-        if t in ("pystr", "pyint"):
+        if t in ("pystr", "pyint", "pybool"):
             return elem[1]
         raise ValueError("unknown element %r" % (elem,))
 
@@ -738,6 +748,10 @@ class C19(CheckBase):
     @staticmethod
     def pick_value(r, m, vals, boundary, p_wrong):
         if r.random() < p_wrong:
+            held = m.present()
+            eq = [w for w, k in WRONG_EQ[m.base] if k in held]
+            if eq and r.random() < 0.5:
+                return r.choice(eq)
             return r.choice(WRONG[m.base])
         if boundary:
             held = m.present()
